@@ -1,50 +1,50 @@
 /-
-Skiplist, single-level fragment: `skiplist_destroy` — every linked node is notified DELETED (and
+Skiplist: `skiplist_destroy` — every linked node is notified DELETED (and
 FREE) in ascending order and released together with its forward array, then the header; the harness
 starts over with a fresh skiplist.
 -/
-import QbVerif.Lemmas.SlForeach
+import QbVerif.Lemmas.SlmForeach
 
 namespace QbVerif.Skiplist
 open QbVerif.Map
 set_option linter.unusedSimpArgs false
 
 /-- `skiplist_node_destroy` of a plain entry node during teardown (`list->level < MIN`) -/
-theorem nodeDestroy_teardown {t : SL} {i : NodeId} {e : Entry} {fi : FwdId} {ai hn}
-    (hin : t.nodes i = some ⟨some e.key, e.val, 1, 1, fi, e.notifs⟩) (hia : t.fwds fi = some ai)
-    (hh : t.nodes t.header = some hn) (_hne : t.header ≠ i) :
+theorem nodeDestroy_teardown {t : SL} {i : NodeId} {e : Entry} {fi : FwdId} {ai hn} {rc lv : Nat}
+    (hin : t.nodes i = some ⟨some e.key, e.val, lv, rc, fi, e.notifs⟩) (hia : t.fwds fi = some ai)
+    (hh : t.nodes t.header = some hn) (_hne : t.header ≠ i) (hlv1 : 1 ≤ lv) :
     ∃ t1, t.nodeDestroy i = .ok (t1, dispatch e.notifs hn.notifs EV_DELETED e.key e.val 0) ∧
       t1.nodes = upd t.nodes i none ∧ t1.fwds = upd t.fwds fi none ∧ t1.header = t.header ∧ t1.lv = t.lv ∧
       t1.crashed = t.crashed ∧ t1.length = t.length := by
   cases hr : t.nodeDestroy i with
   | error err =>
-    simp [SL.nodeDestroy, SL.node, SL.notify, SL.nodeFree, SL.freeFwd, hin, hia, hh, bind, Except.bind] at hr
+    simp [SL.nodeDestroy, SL.node, SL.notify, SL.nodeFree, SL.freeFwd, hin, hia, hh, bind, Except.bind, hlv1] at hr
   | ok r =>
     obtain ⟨t1, evs⟩ := r
-    simp [SL.nodeDestroy, SL.node, SL.notify, SL.nodeFree, SL.freeFwd, hin, hia, hh, bind, Except.bind] at hr
+    simp [SL.nodeDestroy, SL.node, SL.notify, SL.nodeFree, SL.freeFwd, hin, hia, hh, bind, Except.bind, hlv1] at hr
     obtain ⟨rfl, rfl⟩ := hr
     exact ⟨_, rfl, rfl, rfl, rfl, rfl, rfl, rfl⟩
 
-theorem destroyLoop_eq {g : List Notifier} {hv : Val} {hf : FwdId} {ha : Nat → Option NodeId} :
+theorem destroyLoop_eq {g : List Notifier} {hv : Val} {hf : FwdId} {ha : Nat → Option NodeId} {hrc : Nat} :
     ∀ (es : List Entry) (ids : List NodeId) (i : NodeId) (e : Entry) (t : SL) (evs : List Event) (fuel : Nat),
-    t.nodes t.header = some ⟨none, hv, LEVEL_MAX + 1, 1, hf, g⟩ → t.fwds hf = some ha →
+    t.nodes t.header = some ⟨none, hv, LEVEL_MAX + 1, hrc, hf, g⟩ → t.fwds hf = some ha →
     NodeOk t i e → Chain t i ids es → (t.header :: i :: ids).Nodup →
     (∀ a ∈ t.header :: i :: ids, ∀ b ∈ t.header :: i :: ids, fwdOf t a = fwdOf t b → a = b) →
-    ids.length + 2 ≤ fuel →
+    ids.length + 2 ≤ fuel → t.lv = 0 →
     ∃ t', SL.destroyLoop fuel t (some i) evs =
         .ok (t', evs ++ (e :: es).flatMap fun e => dispatch e.notifs g EV_DELETED e.key e.val 0) ∧
       t'.header = t.header ∧ t'.nodes t.header = t.nodes t.header ∧ t'.fwds hf = t.fwds hf ∧ t'.lv = t.lv ∧
       t'.crashed = t.crashed
-  | es, ids, i, e, t, evs, fuel, hh1, hh2, hok, hc, hnd, hinj, hfuel => by
+  | es, ids, i, e, t, evs, fuel, hh1, hh2, hok, hc, hnd, hinj, hfuel, htl => by
     obtain ⟨f, rfl⟩ : ∃ f, fuel = f + 1 := ⟨fuel - 1, by omega⟩
-    obtain ⟨fi, ai, hin, hia⟩ := hok
+    obtain ⟨ilv, irc, fi, ai, _, hilv, _, hin, hia⟩ := hok
     have hhi : t.header ≠ i := fun he => (List.nodup_cons.1 hnd).1 (he ▸ List.mem_cons_self)
     have hfi : fwdOf t i = fi := by simp [fwdOf, hin]
     have hfh : fwdOf t t.header = hf := by simp [fwdOf, hh1]
     have hffne : hf ≠ fi := by
       intro he
       exact hhi (hinj t.header (by simp) i (by simp) (by rw [hfh, hfi, he]))
-    obtain ⟨t1, hd, hn1, hf1, hhd1, hlv1, hcr1, hlen1⟩ := nodeDestroy_teardown hin hia hh1 hhi
+    obtain ⟨t1, hd, hn1, hf1, hhd1, hlv1, hcr1, hlen1⟩ := nodeDestroy_teardown hin hia hh1 hhi hilv
     have hnn : t.nodeNext t.fuel i = .ok (next0 t i) := by
       show t.nodeNext (t.length + 11 + 1) i = _
       cases ids with
@@ -58,8 +58,9 @@ theorem destroyLoop_eq {g : List Notifier} {hv : Val} {hf : FwdId} {ha : Nat →
         cases es with
         | nil => cases hc
         | cons e' es' =>
-          obtain ⟨h1, ⟨fj, aj, hjn, _⟩, _⟩ := hc
-          simp [SL.nodeNext, fwdAt0_of_next0 ⟨_, ai, hin, hia⟩, h1, bind, Except.bind, SL.node, hjn]
+          obtain ⟨h1, ⟨_, jrc, fj, aj, hjrc, _, _, hjn, _⟩, _⟩ := hc
+          have hjrc0 : jrc ≠ 0 := by omega
+          simp [SL.nodeNext, fwdAt0_of_next0 ⟨_, ai, hin, hia⟩, h1, bind, Except.bind, SL.node, hjn, hjrc0]
     simp only [SL.destroyLoop, hnn, hd, bind, Except.bind]
     cases ids with
     | nil =>
@@ -94,9 +95,9 @@ theorem destroyLoop_eq {g : List Notifier} {hv : Val} {hf : FwdId} {ha : Nat →
           intro a ha'; simp [fwdOf, hn1, upd, ha']
         have hjok1 : NodeOk t1 j e' := by
           obtain ⟨h3, h4⟩ := hframe j (by simp)
-          exact hjok.frame h3 (by rw [h4]; obtain ⟨fj, aj, h5, h6⟩ := hjok; simp [fwdOf, h5, h6])
+          exact hjok.frame h3 (by rw [h4]; obtain ⟨_, _, fj, aj, _, _, _, h5, h6⟩ := hjok; simp [fwdOf, h5, h6])
         have hc1 : Chain t1 j ids' es' := Chain.frame hc' hframe
-        have hh1' : t1.nodes t1.header = some ⟨none, hv, LEVEL_MAX + 1, 1, hf, g⟩ := by
+        have hh1' : t1.nodes t1.header = some ⟨none, hv, LEVEL_MAX + 1, hrc, hf, g⟩ := by
           rw [hhd1, hn1]; simp [upd, hhi, hh1]
         have hh2' : t1.fwds hf = some ha := by rw [hf1]; simp [upd, hffne, hh2]
         obtain ⟨t', hl, hp1, hp2, hp3, hp4, hp5⟩ := destroyLoop_eq es' ids' j e' t1
@@ -119,7 +120,7 @@ theorem destroyLoop_eq {g : List Notifier} {hv : Val} {hf : FwdId} {ha : Nat →
               · simp
               · exact List.mem_cons_of_mem _ (List.mem_cons_of_mem _ hx)
             exact hinj a (hsub a ha') b (hsub b hb) hab)
-          (by simp at hfuel ⊢; omega)
+          (by simp at hfuel ⊢; omega) (by rw [hlv1]; exact htl)
         refine ⟨t', ?_, by rw [hp1, hhd1], ?_, ?_, by rw [hp4, hlv1], by rw [hp5, hcr1]⟩
         · rw [h1]
           rw [hl]
@@ -131,9 +132,9 @@ theorem destroyLoop_eq {g : List Notifier} {hv : Val} {hf : FwdId} {ha : Nat →
 theorem fresh_inv (t : SL) (hc : t.crashed = false) :
     Inv { (SL.nodeNew { t with lv := 1, length := 0, iters := [] } (LEVEL_MAX + 1) none 0).1 with header := t.nextNode }
       [] [] [] := by
-  refine ⟨⟨t.nextFwd, fun _ => none, 0, by simp [SL.nodeNew, upd], by simp [SL.nodeNew, upd]⟩, ?_, by simp, ?_, ?_, ?_,
-    List.Pairwise.nil, ⟨by simp [SL.nodeNew], fun h => absurd rfl h⟩, by simp [SL.nodeNew], by simp [SL.nodeNew],
-    by simp [SL.nodeNew, hc]⟩
+  refine ⟨⟨t.nextFwd, fun _ => none, 0, 1, by simp [SL.nodeNew, upd], by simp [SL.nodeNew, upd]⟩, ?_, by simp, ?_, ?_, ?_,
+    List.Pairwise.nil, by simp [SL.nodeNew, LEVEL_MAX, Gen.SL_LEVEL_MAX], by simp [SL.nodeNew], ?_,
+    by simp [SL.nodeNew], by simp [SL.nodeNew], by simp [SL.nodeNew, hc], (fun i hi => by cases hi), ?_⟩
   · show next0 _ _ = none
     simp [next0, SL.nodeNew, upd]
   · intro a ha b hb _
@@ -148,6 +149,14 @@ theorem fresh_inv (t : SL) (hc : t.crashed = false) :
     subst ha
     show fwdOf _ _ < t.nextFwd + 1
     simp [fwdOf, SL.nodeNew, upd]
+  · intro a ha
+    simp only [List.mem_singleton] at ha
+    subst ha
+    simp [rcOf, SL.nodeNew, upd, parked]
+  · refine ⟨fun _ => [], ⟨rfl, ?_, fun _ => List.Sublist.refl _⟩, fun _ _ => rfl, fun _ i hi => by cases hi⟩
+    intro l _
+    show nextL _ l _ = none
+    simp [nextL, SL.nodeNew, upd]
 
 theorem create_inv : Inv create [] [] [] :=
   fresh_inv ⟨fun _ => none, fun _ => none, 0, 1, 0, [], 0, 0, [], [], false, false⟩ rfl
@@ -161,9 +170,10 @@ theorem nodeFree_header {t : SL} {hn : Node} {ha} (hh : t.nodes t.header = some 
     subst hr
     exact ⟨_, rfl, rfl⟩
 
-theorem destroy_eq {s ids es g} (h : Inv s ids es g) :
-    ∃ s', s.destroy = .ok (s', es.flatMap fun e => dispatch e.notifs g EV_DELETED e.key e.val 0) ∧ Inv s' [] [] [] := by
-  obtain ⟨hf, ha, hv, hh1, hh2⟩ := h.hdr
+theorem destroy_eq {s ids es g} (h : Inv s ids es g) (_hit : s.iters = []) :
+    ∃ s', s.destroy = .ok (s', es.flatMap fun e => dispatch e.notifs g EV_DELETED e.key e.val 0) ∧ Inv s' [] [] [] ∧
+      s'.iters = [] := by
+  obtain ⟨hf, ha, hv, hrc, hh1, hh2⟩ := h.hdr
   have hx0 : XOk ({ s with lv := 0 } : SL) s.header := ⟨_, ha, hh1, hh2⟩
   have hnn : ({ s with lv := 0 } : SL).nodeNext ({ s with lv := 0 } : SL).fuel s.header = .ok (next0 s s.header) := by
     cases ids with
@@ -188,7 +198,7 @@ theorem destroy_eq {s ids es g} (h : Inv s ids es g) :
     | nil =>
       have h0 : next0 s s.header = none := h.chain
       obtain ⟨t', hfr, hcr⟩ := nodeFree_header (t := { s with lv := 0 }) hh1 hh2 rfl
-      refine ⟨_, ?_, fresh_inv t' (by rw [hcr]; exact h.ok)⟩
+      refine ⟨_, ?_, fresh_inv t' (by rw [hcr]; exact h.ok), rfl⟩
       simp only [SL.destroy, hnn, h0, bind, Except.bind]
       have : SL.destroyLoop (s.length + 2) { s with lv := 0 } none [] = .ok ({ s with lv := 0 }, []) := by
         show SL.destroyLoop (s.length + 1 + 1) _ none [] = _
@@ -203,17 +213,17 @@ theorem destroy_eq {s ids es g} (h : Inv s ids es g) :
       obtain ⟨h1, hiok, hc⟩ := h.chain
       have hiok0 : NodeOk { s with lv := 0 } i e := hiok
       have hc0 : Chain { s with lv := 0 } i ids' es' := Chain.frame hc (fun _ _ => ⟨rfl, rfl⟩)
-      obtain ⟨t', hl, hp1, hp2, hp3, hp4, hp5⟩ := destroyLoop_eq (g := g) (hv := hv) (hf := hf) (ha := ha) es' ids' i e
+      obtain ⟨t', hl, hp1, hp2, hp3, hp4, hp5⟩ := destroyLoop_eq (g := g) (hv := hv) (hf := hf) (ha := ha) (hrc := hrc) es' ids' i e
         { s with lv := 0 } [] (s.length + 2) hh1 hh2 hiok0 hc0 h.nodup h.inj (by
           have := h.chain.length_eq
           have hl := h.len
           simp at this hl ⊢
-          omega)
-      have hh1' : t'.nodes t'.header = some ⟨none, hv, LEVEL_MAX + 1, 1, hf, g⟩ := by
+          omega) rfl
+      have hh1' : t'.nodes t'.header = some ⟨none, hv, LEVEL_MAX + 1, hrc, hf, g⟩ := by
         rw [hp1]; exact hp2.trans hh1
       have hh2' : t'.fwds hf = some ha := hp3.trans hh2
       obtain ⟨t'', hfr, hcr⟩ := nodeFree_header hh1' hh2' hp4
-      refine ⟨_, ?_, fresh_inv t'' (by rw [hcr, hp5]; exact h.ok)⟩
+      refine ⟨_, ?_, fresh_inv t'' (by rw [hcr, hp5]; exact h.ok), rfl⟩
       simp only [SL.destroy, hnn, h1, bind, Except.bind]
       rw [hl]
       simp only [List.nil_append]
